@@ -26,6 +26,7 @@ def run(ctx):
     ctx.set("invalid_without_failure_channel", cov["invalid_without_failure_channel"])
     ctx.set("crashes_contained", sum(1 for r in recs if r.crash is not None))
     ctx.set("value_spaces", info["spaces"])
+    ctx.set("instances_cut_short_after_repeated_crashes", info.get("instances_cut_short_after_repeated_crashes", {}))
     if info.get("dropped"):
         ctx.set("configurations_dropped_at_build", info["dropped"])
     ctx.rule = ("programs = generated TUs (one or more operations x all allow-listed configurations, constants drawn from the seed); cases = baked value sets, "
